@@ -102,58 +102,69 @@ def analyse_inplace(repo, fm):
     except Unmodelled as e:
         raise Unknown(f"statements before the loop: {e}")
     live = [s for s, o in outs if o is None]
-    if len(live) != 1:
+    if not live or len(live) > 8:
         raise Unknown(f"{len(live)} ways to reach the loop")
-    s_init = live[0]
-    ints = {k: v for k, v in s_init.env.items() if isinstance(v, Num) and v.f.is_const() and k not in (tfp,)}
-    if not ints:
-        raise Unknown("no integer cursor initialised before the loop")
-    syms = {k: ("sym", "c:" + k) for k in ints}
-    head = s_init.fork()
-    for k, a in syms.items():
-        head.env[k] = Num(Frac.atom(a))
-    head.facts = [f for f in head.facts if not any(True for _ in ())]  # pre-loop facts (e.g. len >= 2) stay
-    # ---- loop test at the head
-    try:
-        tests = it.cond_paths(loop.test, head.fork())
-    except Unmodelled as e:
-        raise Unknown(f"loop test: {e}")
-    entered = [s for t, s in tests if t]
-    if len(entered) != 1:
-        raise Unknown("loop test with several ways to hold")
-    ent = entered[0]
-    n_head_facts = len(head.facts)
-    test_facts = list(ent.facts[n_head_facts:])
-    # ---- one iteration
-    ent.effects = []
-    try:
-        body_outs = it.block(loop.body, ent)
-    except Unmodelled as e:
-        raise Unknown(f"loop body: {e}")
-    if it.unmodelled:
-        raise Unknown(f"loop body: {it.unmodelled[0][1]}")
-    paths = []
-    for s, out in body_outs:
-        kind = "next"
-        if out is not None:
-            v = out[1]
-            if isinstance(v, Obj) and v.kind in ("continue", "break"):
-                kind = "next" if v.kind == "continue" else "break"
-            elif isinstance(out[0], ast.Return):
-                kind = "return"
-            else:
-                raise Unknown("a path leaves the loop body by raise")
-        inserts, others, news = [], [], {}
-        for e in s.effects:
-            if e[0] == "call" and isinstance(e[1], Obj) and e[1].kind == "list" and e[2] == "insert":
-                inserts.append(e)
-            elif e[0] == "call" and isinstance(e[1], Obj) and e[1].kind == "list" and e[2] in ("append", "extend", "pop", "clear", "remove"):
-                others.append(e)
-            elif e[0] == "new":
-                news[id(e[-1])] = e
-        cursor_after = {k: s.env.get(k) for k in syms}
-        paths.append(dict(state=s, kind=kind, facts=list(s.facts[n_head_facts + len(test_facts):]), inserts=inserts, others=others, cursor=cursor_after, heap=dict(s.heap)))
-    return dict(paths=paths, syms=syms, init={k: v.f for k, v in ints.items()}, test_facts=test_facts, loop=loop, lst=lst, tfp=tfp, it=it, head=head)
+    stored_in_loop_ = {n.id for b in loop.body for n in ast.walk(b) if isinstance(n, ast.Name) and isinstance(n.ctx, ast.Store)}
+
+    def one(s_init):
+        stored_in_loop = {n.id for b in loop.body for n in ast.walk(b) if isinstance(n, ast.Name) and isinstance(n.ctx, ast.Store)}
+        ints = {k: v for k, v in s_init.env.items() if isinstance(v, Num) and k not in (tfp,) and (v.f.is_const() or k in stored_in_loop)}
+        if not ints:
+            raise Unknown("no integer cursor initialised before the loop")
+        syms = {k: ("sym", "c:" + k) for k in ints}
+        head = s_init.fork()
+        for k, a in syms.items():
+            head.env[k] = Num(Frac.atom(a))
+        head.facts = [f for f in head.facts if not any(True for _ in ())]  # pre-loop facts (e.g. len >= 2) stay
+        # ---- loop test at the head
+        try:
+            tests = it.cond_paths(loop.test, head.fork())
+        except Unmodelled as e:
+            raise Unknown(f"loop test: {e}")
+        entered = [s for t, s in tests if t]
+        if len(entered) != 1:
+            raise Unknown("loop test with several ways to hold")
+        ent = entered[0]
+        n_head_facts = len(head.facts)
+        test_facts = list(ent.facts[n_head_facts:])
+        # ---- one iteration
+        ent.effects = []
+        try:
+            body_outs = it.block(loop.body, ent)
+        except Unmodelled as e:
+            raise Unknown(f"loop body: {e}")
+        if it.unmodelled:
+            raise Unknown(f"loop body: {it.unmodelled[0][1]}")
+        paths = []
+        for s, out in body_outs:
+            kind = "next"
+            if out is not None:
+                v = out[1]
+                if isinstance(v, Obj) and v.kind in ("continue", "break"):
+                    kind = "next" if v.kind == "continue" else "break"
+                elif isinstance(out[0], ast.Return):
+                    kind = "return"
+                else:
+                    raise Unknown("a path leaves the loop body by raise")
+            inserts, others, news = [], [], {}
+            for e in s.effects:
+                if e[0] == "call" and isinstance(e[1], Obj) and e[1].kind == "list" and e[2] == "insert":
+                    inserts.append(e)
+                elif e[0] == "call" and isinstance(e[1], Obj) and e[1].kind == "list" and e[2] in ("append", "extend", "pop", "clear", "remove"):
+                    others.append(e)
+                elif e[0] == "new":
+                    news[id(e[-1])] = e
+            cursor_after = {k: s.env.get(k) for k in syms}
+            paths.append(dict(state=s, kind=kind, facts=list(s.facts[n_head_facts + len(test_facts):]), inserts=inserts, others=others, cursor=cursor_after, heap=dict(s.heap)))
+        return dict(paths=paths, syms=syms, init={k: v.f for k, v in ints.items()}, test_facts=test_facts, loop=loop, lst=lst, tfp=tfp, it=it, head=head)
+
+    results = [one(s_) for s_ in live]
+    first = results[0]
+    for r in results[1:]:
+        if sorted(r["syms"]) != sorted(first["syms"]) or {k: repr(v) for k, v in r["init"].items()} != {k: repr(v) for k, v in first["init"].items()} or [repr(c) for c in r["test_facts"]] != [repr(c) for c in first["test_facts"]]:
+            raise Unknown("the ways to reach the loop differ in the cursor / the loop test")
+        first["paths"].extend(r["paths"])
+    return first
 
 
 def examined_position(an) -> Frac:
